@@ -20,8 +20,8 @@ func MapGMonth(lexicalForm string) (GMonth, error) {
 	lexicalForm = xsdutil.WhiteSpaceCollapse(lexicalForm)
 
 	for _, layout := range []string{
-		"01",
-		"01Z07:00",
+		"--01",
+		"--01Z07:00",
 	} {
 		parsed, err := time.Parse(layout, lexicalForm)
 		if err == nil {
